@@ -41,6 +41,7 @@ type Exec struct {
 	decs   []Dec
 	pc     []*Term
 	model  Model // satisfies pc, or nil
+	facts  *factStore
 
 	inputs    []*Term
 	inputSeen map[string]int
@@ -111,6 +112,12 @@ func (e *Exec) addPC(c *Term) {
 		return
 	}
 	e.pc = append(e.pc, c)
+	if e.facts == nil {
+		e.facts = newFacts()
+	}
+	if !e.arith {
+		e.facts.learn(c, true)
+	}
 	if e.model != nil {
 		if e.arith || Eval(c, e.model) != 1 {
 			e.model = nil
@@ -125,6 +132,15 @@ func (e *Exec) feasible(c *Term) bool {
 	}
 	if c.IsFalse() {
 		return false
+	}
+	if e.facts != nil && !e.arith {
+		switch e.facts.eval(c) {
+		case 1:
+			return true
+		case 0:
+			e.w.stats.FactPruned++
+			return false
+		}
 	}
 	if v, ok := e.modelSays(c); ok && v {
 		return true
@@ -158,6 +174,17 @@ func (e *Exec) branch(c *Term, ins ssa.Instruction) bool {
 		panic(pathEnd{"unsupported", "symbolic branch during package initialisation"})
 	}
 	nc := e.ctx.BNot(c)
+	if e.facts != nil && !e.arith {
+		// consequences of the path condition need neither a decision nor a query
+		switch e.facts.eval(c) {
+		case 1:
+			e.w.stats.FactPruned++
+			return true
+		case 0:
+			e.w.stats.FactPruned++
+			return false
+		}
+	}
 	if e.pos < len(e.prefix) {
 		d := e.prefix[e.pos]
 		if d.Kind != 'b' {
